@@ -95,6 +95,8 @@ def rule_evaluator(ctx: Ctx):
     n = check_einsums_in_function(ctx, f, typer)
     # the cross-product einsum binds exactly the expected operands
     es = [c for c in fn_body_nodes(f) if isinstance(c, ast.Call) and ast.unparse(c.func) == "torch.einsum"]
+    # the chain is the einsum that combines four operands (a helper contraction may precede it)
+    es = sorted(es, key=lambda c: -len(c.args))
     if es:
         # operands: the two strategies are parameters; T / O are the tensors of the POMDP's transition / observation matrix, named by a
         # (single-assignment) local or written in place
@@ -112,10 +114,14 @@ def rule_evaluator(ctx: Ctx):
         ins, out = spec.split("->")
         subs = ins.split(",")
         # output pairs (node, state) -> (next node, next state)
-        n_, a_ = subs[0]
-        s_, _, t_ = subs[1]
-        m_ = subs[3][-1]
-        ok = out == n_ + s_ + m_ + t_
+        if len(subs) == 4 and len(subs[0]) == 2 and len(subs[1]) == 3 and subs[3]:
+            n_, a_ = subs[0]
+            s_, _, t_ = subs[1]
+            m_ = subs[3][-1]
+            ok = out == n_ + s_ + m_ + t_
+        else:
+            n_ = s_ = m_ = t_ = "?"
+            ok = False
         ctx.check(ok, "TEN-1", f, es[0], "chain output is indexed (node, state, next node, next state)", out,
                   f"chain output '{out}' is not (node, state, next node, next state) = '{n_ + s_ + m_ + t_}': the flattened cross-product chain would be transposed")
     term = simplify(X.returns(f))
